@@ -110,11 +110,14 @@ async def do_op(sim, request):
 
         def setter(content_evaluation_result):
             body = schema.dump(content_evaluation_result)
-            handed_out.append(body)  # keeps the object alive, so that its id() identifies it for the whole run
+            # a token *inside* the data identifies it (it survives defensive copies of the evaluatable data)
+            body["hints"]["0"] = f"data-{REQ.get()}-{len(handed_out)}"
+            handed_out.append(body)
             CER.set(body)
 
         flag, reason = await is_valid_expression(op["expr"], setter)
         contents = [dumps([b.get("requirement_constraints"), b.get("format_constraints")]) for b in handed_out]
+        seen_tokens = sim.data_seen
         if len(set(contents)) != len(contents) and sim.shared_violation is None:
             # every evaluation of the validity check has data of its own: the same content evaluation result must not
             # be handed to two of them
@@ -126,7 +129,7 @@ async def do_op(sim, request):
         if flag and op.get("has_rc"):
             # every evaluation sees its own data: whatever was set for an evaluation has been seen by that
             # evaluation's requirement-constraint evaluators (all of them ran to completion: the verdict is True)
-            unseen = [body for body in handed_out if id(body) not in sim.data_seen]
+            unseen = [body for body in handed_out if body["hints"]["0"] not in seen_tokens]
             sim.probe("validity_setter_calls", len(handed_out))
             if unseen and sim.scenario["world"].get("flavour", "sim") == "sim":
                 sim.shared_violation = (
